@@ -38,7 +38,16 @@ pub fn config_full(line: &str) -> Config {
 
 fn one(cas: &Cas<Vec<u8>>, key: &Vec<u8>, content: &[u8], s: u64, e: u64, out: &mut Out) {
     let l = content.len() as u64;
-    let (r, peak, largest) = measure(|| cas.get_range(key, s, e));
+    // "no request panics": a panic is a result like any other, reported with the bounds that caused it
+    let (r, peak, largest) = measure(|| std::panic::catch_unwind(std::panic::AssertUnwindSafe(|| cas.get_range(key, s, e))));
+    let r = match r {
+        Ok(r) => r,
+        Err(_) => {
+            out.oracle_fail(format!("C17: L={l} [{s},{e}) panicked"));
+            out.push(format!("range {} {} {} _", hx(content), s, e), "panic".to_string());
+            return;
+        }
+    };
     let line = match &r {
         Ok(Some(b)) => format!("ok {} {}", hx(b), b.len()),
         Ok(None) => "absent".to_string(),
